@@ -25,6 +25,7 @@ ZW    == (<<"@", "SOA">> :> R(300, {<<65535, 65535>>})) @@ (<<"@", "NS">> :> R(3
 GenInitZones == {ZApex, ZA, ZC, ZW}
 GenInitSmall == {ZA, ZC}
 GenInitMid == {ZA, ZC, ZW}
+GenInitEmpty == {<<>>}
 GenSerials == {<<0, 1>>, <<32768, 0>>}
 GenSerialArgs == {[neg |-> FALSE, value |-> <<0, 1>>, relative |-> TRUE],
                   [neg |-> FALSE, value |-> <<32767, 65535>>, relative |-> TRUE],
@@ -37,7 +38,7 @@ GenSerialSmall == {[neg |-> FALSE, value |-> <<0, 1>>, relative |-> TRUE]}
 ProjOf(w) == {<<k[1], k[2], w[k].ttl, w[k].rds>> : k \in DOMAIN w}
 H(e) == hist' = Append(hist, e)
 
-GInit == Init /\ hist = <<[op |-> "init", zone |-> ProjOf(committed)]>>
+GInit == Init /\ hist = <<[op |-> "init", zone |-> ProjOf(committed), origin |-> corigin]>>
 
 GBegin == \E k \in Kinds, r \in Replacements :
     /\ (k = "read" => ~r)
@@ -68,6 +69,7 @@ GStep ==
          "getnode" \in Ops /\ GetNode(TRUE, n) /\ H([op |-> "getnode", sp |-> sp, name |-> n])
     \/ "names" \in Ops /\ IterNames /\ H([op |-> "names"])
     \/ "changed" \in Ops /\ (\E b \in BOOLEAN : Changed(b)) /\ H([op |-> "changed"])
+    \/ "learn" \in Ops /\ LearnOrigin /\ H([op |-> "learn"])
     \/ "outzone" \in Ops /\ DeleteName(FALSE, FALSE, "@") /\ H([op |-> "outzone"])
     \/ \E sp \in Spellings, n \in Names, ty \in Types \ {"SOA"}, ttl \in TTLs :
          "cbraise" \in Ops /\ CallbackRaises /\ H([op |-> "cbraise", sp |-> sp, name |-> n, type |-> ty, ttl |-> ttl, rds |-> {<<1>>}])
